@@ -1088,6 +1088,7 @@ impl Vm {
                 .expect("Expected ExcHandler.");
             (handler.finally_ip, handler.init_stack_size)
         };
+        self.active_fiber_mut().close_upvalues(init_stack_size);
         self.active_fiber_mut().stack.truncate(init_stack_size);
         self.ip = new_ip;
     }
@@ -1547,6 +1548,8 @@ impl Vm {
         };
 
         self.active_fiber_mut()
+            .close_upvalues(handler.init_stack_size);
+        self.active_fiber_mut()
             .stack
             .truncate(handler.init_stack_size);
         self.push(exc_object);
@@ -1561,6 +1564,7 @@ impl Vm {
     fn reset_stack(&mut self) {
         if let Some(fiber) = self.fiber.as_ref() {
             let mut borrowed_fiber = fiber.borrow_mut();
+            borrowed_fiber.close_upvalues(0);
             borrowed_fiber.stack.clear();
             borrowed_fiber.frames.clear();
         }
